@@ -21,6 +21,8 @@ func init() {
 			{ID: "C18-R5", Doc: "arity is established before a column is inspected", Run: c18r5},
 			{ID: "C18-R6", Doc: "admission by Kind vs use by type assertion", Run: c18r6},
 			{ID: "C18-R7", Doc: "CanApply's column loops tile every column index", Run: c18r7},
+			{ID: "C18-R8", Doc: "the exact-shape clauses of the documented schemas are each rejected by some typecheck guard; the context parameter is recognised by type identity", Run: c18r8},
+			{ID: "C18-R9", Doc: "element-wise type comparisons start at the first column", Run: c18r9},
 		},
 	})
 }
@@ -623,6 +625,10 @@ func c18r5(c *RC) {
 // are false; of && when earlier ones are true).
 func shortCircuitGuards(cond ast.Expr, call *ast.CallExpr, recv string, k int64, pk *Pkg) bool {
 	cond = ast.Unparen(cond)
+	if u, isNot := cond.(*ast.UnaryExpr); isNot && u.Op == token.NOT {
+		// negation does not change which operands are evaluated
+		return shortCircuitGuards(u.X, call, recv, k, pk)
+	}
 	be, ok := cond.(*ast.BinaryExpr)
 	if !ok {
 		return false
